@@ -225,8 +225,23 @@ MC_INVS = ["BestIsMin", "NoRaise", "TypeOK"]
 MC_PROPS = ["SortSorts", "ToBoolSpinInverse"]
 
 
-def validate(out, wd, traces, vals_set, label):
-    """TLC validates recorded traces; violations -> out"""
+def validate(out, wd, traces, vals_set, label, chunk_steps=60000):
+    """TLC validates recorded traces; violations -> out.  Large trace sets are validated in chunks (one TLC run each):
+    TLC holds the whole deserialised file in memory and slows down badly beyond ~10^5 steps."""
+    chunk, n, r = [], 0, None
+    for t in traces:
+        chunk.append(t)
+        n += len(t["steps"])
+        if n >= chunk_steps:
+            r = _validate(out, wd, chunk, vals_set, label)
+            chunk, n = [], 0
+    if chunk or r is None:
+        r = _validate(out, wd, chunk, vals_set, label)
+    return r
+
+
+def _validate(out, wd, traces, vals_set, label):
+    traces = [dict(t, tid=i + 1) for i, t in enumerate(traces)]
     tf = os.path.join(wd, "traces_%s.ndjson" % label)
     common.write_ndjson(tf, traces)
     cfg = os.path.join(wd, "ARTrace_%s.cfg" % label)
